@@ -413,6 +413,57 @@ func runC20(r *core.Run) {
 						})
 					}
 				}
+				// fused multiply-add on values where ONE rounding of a*x+y differs from the product rounded first (the default
+				// engine rounds twice): exact agreement with StdEng, for FMA and the scalar form, on the fast path and the others
+				if d.IsFloat() {
+					u := float64(uint64(1)<<27 + 1)
+					if d.Name == "float32" {
+						u = float64(1<<12 + 1)
+					}
+					fa, fx, fy := make([]interface{}, n), make([]interface{}, n), make([]interface{}, n)
+					for i := 0; i < n; i++ {
+						switch i % 3 {
+						case 0:
+							fa[i], fx[i] = ref.FromFloat(d, u), ref.FromFloat(d, u)
+							fy[i] = ref.Arith("Sub", ref.FromFloat(d, 0), ref.Arith("Mul", fa[i], fx[i]).V).V // -(a*x rounded)
+						case 1:
+							fa[i], fx[i], fy[i] = ref.FromFloat(d, 0.1), ref.FromFloat(d, 0.3), ref.FromFloat(d, -0.03)
+						default:
+							fa[i], fx[i], fy[i] = ref.FromFloat(d, 3), ref.FromFloat(d, 1.0/3), ref.FromFloat(d, -1)
+						}
+					}
+					for _, op := range []string{"FMA", "FMAScalar"} {
+						for _, la := range lays {
+							for _, mode := range []string{"fma", "fma:S"} {
+								es, d, shape, op, la, mode := es, d, shape, op, la, mode
+								id := fmt.Sprintf("C20|arith|%s|%s|%s|%s|fused|%s|a=%s|b=C", es.name, op, d.Name, shapeStr(shape), mode, la)
+								if r.ReplayCase != "" && id != r.ReplayCase {
+									continue
+								}
+								r.Case(id, n >= 2, func() *core.Fail {
+									tensor.VerifResetPools()
+									ob, ok := c20Arith(d, es.e, op, shape, la, "C", mode, fa, fx, fy, fx[0])
+									if !ok {
+										return nil
+									}
+									tensor.VerifResetPools()
+									std, _ := c20Arith(d, tensor.StdEng{}, op, shape, la, "C", mode, fa, fx, fy, fx[0])
+									r.Op(2)
+									if ob.class != "ok" && std.class == "ok" {
+										return core.F("config-divergence", "class", "%s on rounding-sensitive values: %s %s, StdEng %s", op, es.name, ob.class, std.class)
+									}
+									if std.class != "ok" {
+										return nil // a destination the default engine refuses (recorded under C07): nothing to agree with
+									}
+									if ob.class == "ok" && (!sameVals(std.vals, ob.vals) || !sameVals(std.dAft, ob.dAft)) {
+										return core.F("config-divergence", "values", "%s(a, x, y) %s layouts %s,C mode %s with a = %s, x = %s, y = %s: %s delivers %s, StdEng %s (one rounding instead of two?)", op, d.Name, la, mode, ref.FmtEls(fa), ref.FmtEls(fx), ref.FmtEls(fy), es.name, ref.FmtEls(ob.vals), ref.FmtEls(std.vals))
+									}
+									return nil
+								})
+							}
+						}
+					}
+				}
 				laysF := append(append([]string{}, lays...), "F")
 				for _, op := range []string{"Add", "Sub", "Mul", "Div", "FMA"} {
 					dmodes := []string{"reuse=a", "reuse=b", "reuse=av", "reuse=bv", "mismatch", "reuse:rs", "incr:rs", "reuse:F", "incr:F"}
